@@ -205,7 +205,7 @@ def chunk : Op → Nat
   | .treeErase | .treeEraseRange | .treeClear | .treeSort
   | .gridCtorFn | .gridCtorValue | .gridCtorRows2 | .gridStaticRow2 | .gridCtorGrid | .gridAssign | .gridSelfAssign | .gridFill
   | .treeSwap | .treeSortPred | .joinSelf | .arrJoinSelf | .tupConcatSelf | .optCombineSelf
-  | .algMapList | .algMapArr | .algMapTup | .algLoopBreakTuple | .recSet | .algRemoveIf | .algRemove | .algUnique | .algUniqueIf
+  | .algMapList | .algMapArr | .algMapTup | .algLoopBreakTuple | .recSet | .algRemoveIf | .algRemove | .algUnique | .algUniqueIf | .algSeqIterationVec
   | .parseAlt | .parseOpt | .parseConvert | .parseAsStruct | .parseSeparator | .parseList | .parseRepPlus
   | .optsArgument | .optsOptional | .optsProduct | .optsMany | .optsSum => 3
   | _ => 0
